@@ -42,10 +42,10 @@ func c14(c *an.Ctx) {
 		}
 		// listing forms: the element is added only under both conjuncts
 		type linst struct {
-			spec           string
-			site           func(f *an.Fn) *an.Sites
-			dur, end, now  string
-			label          string
+			spec          string
+			site          func(f *an.Fn) *an.Sites
+			dur, end, now string
+			label         string
 		}
 		appendTo := func(name string) func(f *an.Fn) *an.Sites {
 			return func(f *an.Fn) *an.Sites {
